@@ -30,7 +30,7 @@ def build(kind, exc_handler, init_out, lsn_out, log, ka=None):
     acts = log
 
     class D(DataProvider):
-        def initialize(self, p, c):
+        def initialize(self, p, c=None):
             acts.cur().append("init:%s:%s" % (c_dict(p).replace(" ", ",").replace("d{,", "d{").replace(",}", "}"), ari.c_optstr(c)))
             return outcome(init_out)
         def set_listener(self, l):
@@ -52,7 +52,7 @@ def build(kind, exc_handler, init_out, lsn_out, log, ka=None):
         return f
     body = {n: mk(n) for n in ADAPTER_METHODS}
 
-    def minit(self, p, c):
+    def minit(self, p, c=None):
         acts.cur().append("init:%s:%s" % (c_dict(p).replace(" ", ",").replace("d{,", "d{").replace(",}", "}"), ari.c_optstr(c)))
         return outcome(init_out)
     body["initialize"] = minit
